@@ -31,11 +31,11 @@ import core
 READY = True
 MANIFEST = dict(
     technique='Lean 4 theorems over a byte-level model of the scope codec (percent-encoding, UTF-8 decoding with replacement, urlsplit, parse_qsl transcribed and proved to round-trip); differential correspondence of every model function against the real code',
-    text='Theorems (Properties/C16.lean): scope_roundtrip (from_scope_string(scope_string(loc)) = loc for every non-empty root and every present/absent pattern of arbitrary UTF-8 values, empty string included), published_roundtrip / published_inside (the scope mk_scopes publishes is inside exactly the locations with the default root that agree on all their specified elements; corollaries: inside itself, inside every enclosing location, outside every location differing in a specified element), filter_total / filter_services_total (for every scope string and service list filter_services_inside returns exactly the services with ANY scope inside, no exception class escapes), search_in_location_exact / search_finds_published / search_excludes_elsewhere (WSDiscovery.search_sdc_device_services_in_location = SDC-typed discovered services filtered by location containment, so a device is found by exactly the searches for enclosing locations). The model is compared with the implementation on generated locations (all 64 presence patterns, reserved/non-ASCII/long values) and on foreign scope strings (any scheme, netloc, 0-6 segments, malformed queries).',
+    text='Theorems (Properties/C16.lean): scope_roundtrip (from_scope_string(scope_string(loc)) = loc for every non-empty root and every present/absent pattern of arbitrary UTF-8 values, empty string included), published_roundtrip / published_inside (the scope mk_scopes publishes is inside exactly the locations with the default root that agree on all their specified elements; corollaries: inside itself, inside every enclosing location, outside every location differing in a specified element), filter_total / filter_services_total (for every scope string and service list filter_services_inside returns exactly the services with ANY scope inside, no exception class escapes), published_after_update / published_after_history / inside_after_history (after any history of location updates of one provider the published scope is that of the last accepted location), search_in_location_exact / search_finds_published / search_excludes_elsewhere (WSDiscovery.search_sdc_device_services_in_location = SDC-typed discovered services filtered by location containment, so a device is found by exactly the searches for enclosing locations). The model is compared with the implementation on generated locations (all 64 presence patterns, reserved/non-ASCII/long values) and on foreign scope strings (any scheme, netloc, 0-6 segments, malformed queries).',
     note='Trusted: Lean kernel; harness and generators; the ipaddress/NFKC checks inside urlsplit are a parameter of the model (all theorems hold for every outcome), CPython str.encode/UTF-8 decoder is modelled and under correspondence. Domain: strings are sequences of Unicode scalar values (lone surrogates cannot be encoded, quote raises); root must be non-empty (root is deprecated; an empty root cannot be expressed in the URL path); the published scope always carries the fixed root sdc.ctxt.loc.detail.',
     ref='5 C16')
 DRIVERS = ['drv_c16']
-RULE = ('one case = one operation (scope / published / parse / match / filter / search / split / qsl / utf8 / quote) with its arguments; '
+RULE = ('one case = one operation (scope / published / parse / match / filter / search / location history step / split / qsl / utf8 / quote) with its arguments; '
         'distinct by canonical argument tuple; non-trivial = at least one element or scope carries a reserved, '
         'percent, plus, space or non-ASCII character, or the scope is foreign / malformed')
 TRUSTED = ['ipaddress.ip_address and unicodedata.normalize inside urlsplit (parameter chk of the model; the harness passes whether the real urlsplit accepted the URL)',
